@@ -94,7 +94,11 @@ def generate(R, tier):
         m = R.choice(["pass", "same", "first", "last"])
         if m != "pass":
             script = [{"method": "choice", "mode": m, "index": R.randrange(n)}]
-    return {"algo": name, "n": n, "k": k, "space": space, "rebound": rebound, "ebv": ebv, "obj_wt": R.choice([None, None, 1.0, -1.0, 2.5, -0.5]), "caps": ({"grp": [R.randint(0, 1) for _ in range(n)], "cap": [R.randint(0, 2), R.randint(0, 2)], "flag": [R.randint(0, 1) for _ in range(n)],
+    ocs = None
+    if kind == "subset" and name != "sorting" and R.random() < 0.3:
+        # non-separable objective: relationship (Cholesky-like upper triangular factor) enters through a norm
+        ocs = [[round(abs(R.gauss(0.5, 0.4)) + (1.0 if i == j else 0.0), 3) if j >= i else 0.0 for j in range(n)] for i in range(n)]
+    return {"algo": name, "n": n, "k": k, "space": space, "rebound": rebound, "ocs": ocs, "ebv": ebv, "obj_wt": R.choice([None, None, 1.0, -1.0, 2.5, -0.5]), "caps": ({"grp": [R.randint(0, 1) for _ in range(n)], "cap": [R.randint(0, 2), R.randint(0, 2)], "flag": [R.randint(0, 1) for _ in range(n)],
                       "quota": (R.randint(0, k) if R.random() < 0.5 else None)}
                      if (kind == "subset" and R.random() < (0.6 if name in ("hc", "sorting_hc") else 0.2)) else None),
             "con": R.random() < 0.35, "eq": (name in ("hc", "sorting_hc", "ga.subset", "ga.real") and R.random() < 0.35), "ngen": R.randint(1, 4), "pop": R.choice([4, 6, 8, 12]),
@@ -105,6 +109,10 @@ def shrink(sc):
     if sc.get("rebound") and ALGOS[sc["algo"]][1] != "subset":
         c = copy.deepcopy(sc)
         c["rebound"] = None
+        yield c
+    if sc.get("ocs") is not None:
+        c = copy.deepcopy(sc)
+        c["ocs"] = None
         yield c
     if sc.get("space") is not None:
         c = copy.deepcopy(sc)
@@ -140,7 +148,7 @@ def shrink(sc):
             c = copy.deepcopy(sc)
             c[key] = small
             yield c
-    if sc["n"] > 3 and not sc.get("caps") and sc.get("space") is None:
+    if sc["n"] > 3 and not sc.get("caps") and sc.get("space") is None and sc.get("ocs") is None:
         c = copy.deepcopy(sc)
         c["n"] -= 1
         c["ebv"] = c["ebv"][:-1]
@@ -210,7 +218,9 @@ def execute(sc):
     ebv = numpy.array(sc["ebv"], dtype=float)
     space, rb = sc.get("space"), sc.get("rebound")
     V, log, faults, probes = [], [], {}, {}
-    pkw = dict(nobj=nobj, ndecn=sc["k"] if kind == "subset" else None, con=sc["con"] and not sc.get("caps"), eq=sc.get("eq", False), obj_wt=sc.get("obj_wt"), caps=sc.get("caps") or False)
+    if sc.get("ocs") is not None:
+        faults["non_separable_objective"] = 1
+    pkw = dict(ocs=sc.get("ocs") if kind == "subset" else None, nobj=nobj, ndecn=sc["k"] if kind == "subset" else None, con=sc["con"] and not sc.get("caps"), eq=sc.get("eq", False), obj_wt=sc.get("obj_wt"), caps=sc.get("caps") or False)
     if kind == "subset" and space is not None and rb and rb.get("via_setter"):
         prob = world.ebv_problem(kind, ebv, **pkw)
         prob.decn_space = numpy.array(space, dtype=int)                # candidate set replaced on the existing problem
@@ -344,6 +354,6 @@ def execute(sc):
 def _out(sc, V, log, faults, probes, ran, g):
     trace = "%s|con=%s%s%s|w%s|%s|%s|n%s|k%s" % (sc["algo"], sc["con"], "+eq" if sc.get("eq") else "", "+caps" if sc.get("caps") else "",
                                            "-" if (sc.get("obj_wt") or 1) < 0 else "+", sc["mode"], [r["mode"] for r in sc["script"]], "S" if sc["n"] <= 5 else "L",
-                                         ("=n" if sc["k"] == (len(sc["space"]) if sc.get("space") is not None else sc["n"]) else ("1" if sc["k"] == 1 else "m")) + ("|sp" if sc.get("space") is not None else "") + ("|rb" if sc.get("rebound") else ""))
+                                         ("=n" if sc["k"] == (len(sc["space"]) if sc.get("space") is not None else sc["n"]) else ("1" if sc["k"] == 1 else "m")) + ("|sp" if sc.get("space") is not None else "") + ("|rb" if sc.get("rebound") else "") + ("|ocs" if sc.get("ocs") is not None else ""))
     return {"violations": V, "log": log, "trace": trace, "nontrivial": ran, "faults": faults, "probes": probes,
             "sim": {"optimiser_runs": 1, "pymoo_generations": probes.get("generations_observed", 0)}}
